@@ -40,7 +40,10 @@ def paths_to_tree(paths):
 def to_case(c, fam):
     steps = []
     for h in c["hist"]:
-        steps.append({"op": "update", "data": h["data"], "u": paths_to_tree(h["u"]), "tree": h["tree"], "kind": h["kind"]})
+        if h.get("op") == "bm":
+            steps.append({"op": "bm", "field": h["field"], "data": h["data"], "tree": h["tree"]})
+        else:
+            steps.append({"op": "update", "data": h["data"], "u": paths_to_tree(h["u"]), "tree": h["tree"], "kind": h["kind"]})
     return {"files": c["files"], "data": c["data"], "tree": c["tree"], "steps": steps, "family": fam}
 
 
